@@ -272,6 +272,35 @@ void harness(void)
 }
 #endif
 void HOOK(u32 alg, u32 rnd, u8 *st) {}
+#elif defined(H_FILEBUF)
+/* ---- F1: filebuffer64 delivers (prefix block,) then the file in 64-byte units, then ONE short unit (possibly empty), across refills.
+   FL: file length, PRE: with prefix block.  The refill size is the unit's HBUF_SZ override. */
+#include "env_file.h"
+u8 *vf_fb64_new(u8 *fp, u8 *block); u32 vf_fb64_read(u8 *b, u8 *block); u32 vf_fb64_unit_count(void);
+struct in_t { u8 file[FL + 1]; u8 pre[64]; } IN;
+void harness(void)
+{
+  LOAD_INPUTS();
+  u8 *f = envf_open_in(IN.file, FL);
+  u8 pre[64];
+  memcpy(pre, IN.pre, 64);
+  u8 *fb = vf_fb64_new(f, PRE ? (u8 *)pre : (u8 *)0);
+  u8 blk[64];
+#if PRE
+  CHECK(vf_fb64_read(fb, blk) == 64, "prefix block is delivered first, as a full unit");
+  for (int i = 0; i < 64; i++) CHECK(blk[i] == IN.pre[i], "prefix block contents");
+#endif
+  for (u32 k = 0; k < FL / 64; k++) {
+    CHECK(vf_fb64_read(fb, blk) == 64, "full 64-byte unit");
+    for (int i = 0; i < 64; i++) CHECK(blk[i] == IN.file[64 * k + i], "unit contents in file order (also across a refill)");
+  }
+  u32 n = vf_fb64_read(fb, blk);
+  CHECK(n == FL % 64, "the remaining bytes are handed out once, as a short unit");
+  for (u32 i = 0; i < FL % 64; i++) CHECK(blk[i] == IN.file[64 * (FL / 64) + i], "tail contents");
+  CHECK(envf_nwrites(f) == 0, "file not written");
+  WITNESS_POINT();
+}
+void HOOK(u32 alg, u32 rnd, u8 *st) {}
 #elif defined(H_RESULT)
 /* ---- R / I: output byte order, initial values, lengths, factory mapping */
 struct in_t { u32 h[8]; u8 t; u8 block[64]; } IN;
